@@ -812,13 +812,14 @@ class FitBase(FileIOMixin, object):
 
         :param typing.Iterable[float] param_value_list: List of parameter values (mind the order).
         """
+        _return_value = self._fitter.set_all_fit_parameter_values(param_value_list)  # validates the number of values
         if self._param_model is not None:
             self._param_model.parameters = param_value_list
         for _par_name, _par_val in zip(self.parameter_names, param_value_list):
             if _par_val != 0:
                 self._fit_param_names_bad_default.discard(_par_name)
             check_numerical_range(_par_val, f"{_par_name} (set by user)")
-        return self._fitter.set_all_fit_parameter_values(param_value_list)
+        return _return_value
 
     def fix_parameter(self, name, value=None):
         """Fix a parameter so that its value doesn't change when calling :py:meth:`~do_fit()`.
